@@ -18,6 +18,12 @@
 (*   beams     "orig" or "narrow": the search narrows its beams while more *)
 (*             HMMs are active than maxhmmpf allows, and an utterance can  *)
 (*             end in that condition                                       *)
+(* Process-wide hidden state (glob): anything kept in a static variable is *)
+(* shared by every decoder of the process; the two instances are created   *)
+(* with different acoustic models (model = instance number), so a value    *)
+(* cached from whichever decoder came first is wrong for the other         *)
+(* (deviation "static-cache": the silence phone looked up once per         *)
+(* process).                                                               *)
 (* Visible state: grammar, cmn (the channel-normalisation state as its     *)
 (* history since the last reset: <<"init">>, <<"full">> or <<"short">>     *)
 (* after set_cmn with a complete or a partial vector, then one audio per   *)
@@ -32,28 +38,28 @@ EXTENDS Session, FiniteSets
 
 CONSTANTS Inst, Grams, Audios, Deviations, MaxOps,
           Throttling      \* audios that end while the search is throttled (with the configured maxhmmpf)
-VARIABLES st, seen, last, nops
-vars == <<st, seen, last, nops>>
+VARIABLES st, seen, last, nops, glob
+vars == <<st, seen, last, nops, glob>>
 
 \* a new decoder comes with grammar 1 loaded (configuration); instance 2 is only created next to instance 1
 \* (the two are interchangeable)
 Fresh == [alive |-> TRUE, gram |-> 1, cmn |-> <<"init">>, cmnmode |-> "cfg", ring |-> "clean", gsel |-> "none",
           utt |-> "idle", audio |-> "", batch |-> FALSE, cmn0 |-> <<>>, accum |-> FALSE, stale |-> FALSE, stale0 |-> FALSE,
-          beams |-> "orig", beams0 |-> "orig"]
+          beams |-> "orig", beams0 |-> "orig", gl0 |-> 0]
 Dead == [alive |-> FALSE]
 
-Init == /\ st = [i \in Inst |-> Dead] /\ seen = << >> /\ last = <<"init">> /\ nops = 0
+Init == /\ st = [i \in Inst |-> Dead] /\ seen = << >> /\ last = <<"init">> /\ nops = 0 /\ glob = 0
 
-New(i) == /\ ~st[i].alive /\ (i = 1 \/ st[1].alive) /\ st' = [st EXCEPT ![i] = Fresh] /\ last' = <<"new", i>> /\ UNCHANGED seen
-Free(i) == /\ st[i].alive /\ st[i].utt = "idle" /\ st' = [st EXCEPT ![i] = Dead] /\ last' = <<"free", i>> /\ UNCHANGED seen
+New(i) == /\ ~st[i].alive /\ (i = 1 \/ st[1].alive) /\ st' = [st EXCEPT ![i] = Fresh] /\ last' = <<"new", i>> /\ UNCHANGED <<seen, glob>>
+Free(i) == /\ st[i].alive /\ st[i].utt = "idle" /\ st' = [st EXCEPT ![i] = Dead] /\ last' = <<"free", i>> /\ UNCHANGED <<seen, glob>>
 SetGram(i, g) == /\ st[i].alive /\ st[i].utt = "idle" /\ st[i].gram # g
-                 /\ st' = [st EXCEPT ![i].gram = g] /\ last' = <<"gram", i, g>> /\ UNCHANGED seen
+                 /\ st' = [st EXCEPT ![i].gram = g] /\ last' = <<"gram", i, g>> /\ UNCHANGED <<seen, glob>>
 \* decoder_set_cmn with all 13 values ("full") or fewer ("short"): either way the whole state is replaced
 SetCmn(i, kind) ==
     /\ st[i].alive /\ st[i].utt = "idle" /\ st[i].cmn # <<kind>>
     /\ st' = [st EXCEPT ![i].cmn = <<kind>>, ![i].accum = FALSE,
                         ![i].stale = kind = "short" /\ st[i].accum /\ "short-reset-keeps-sums" \in Deviations]
-    /\ last' = <<"setcmn", i, kind>> /\ UNCHANGED seen
+    /\ last' = <<"setcmn", i, kind>> /\ UNCHANGED <<seen, glob>>
 
 \* start + feed everything (streaming in pieces, or one full-utterance batch call)
 Begin(i, a, batch) ==
@@ -62,8 +68,11 @@ Begin(i, a, batch) ==
                         \* a streaming block switches the stored mode for good (the deviation) or not at all
                         ![i].cmnmode = IF ~batch /\ "cmn-mode-sticks" \in Deviations THEN "live" ELSE @,
                         ![i].ring = "stale", ![i].gsel = a, ![i].stale0 = st[i].stale,
+                        ![i].gl0 = IF "static-cache" \in Deviations THEN (IF glob = 0 THEN i ELSE glob) ELSE i,
                         \* start of utterance restores the configured beams
                         ![i].beams0 = IF "beams-not-restored" \in Deviations THEN st[i].beams ELSE "orig"]
+    \* the first utterance of the process fills the static cache with ITS decoder's value
+    /\ glob' = IF "static-cache" \in Deviations /\ glob = 0 THEN i ELSE glob
     /\ last' = <<"begin", i, a, batch>> /\ UNCHANGED seen
 
 \* the normalisation a batch utterance really gets
@@ -72,6 +81,7 @@ EffBatch(i) == st[i].batch /\ st[i].cmnmode = "cfg"
 Result(i) == <<"R", st[i].gram, IF EffBatch(i) THEN <<"batch">> ELSE st[i].cmn0, st[i].audio, st[i].batch>>
              \o (IF st[i].stale0 /\ ~EffBatch(i) THEN <<"stale sums">> ELSE <<>>)
              \o (IF st[i].beams0 # "orig" THEN <<"narrow beams">> ELSE <<>>)
+             \o (IF st[i].gl0 # i THEN <<"another decoder's cached value">> ELSE <<>>)
 
 End(i) ==
     /\ st[i].alive /\ st[i].utt = "fed"
@@ -79,6 +89,7 @@ End(i) ==
            r == Result(i)
        IN /\ seen' = Record(seen, k, r)
           /\ last' = <<"end", i, Agrees(seen, k, r)>>
+    /\ UNCHANGED glob
     /\ st' = [st EXCEPT ![i].utt = "idle",
                         \* streaming utterances move the running estimate; a batch one that was really
                         \* normalised as batch does not
